@@ -250,3 +250,163 @@ Example C13_witness_amb :
   temitted (fst (run (x_amb 3) [(0, ISrc 1%nat (Next 5)); (0, ISrc 0%nat (Next 9)); (0, ISrc 1%nat Done)]))
   = [(1%nat, Next 5); (3%nat, Done)].
 Proof. vm_compute. reflexivity. Qed.
+
+(* ==== fork_join / combine_latest / with_latest_from over the FULL input alphabet ====================
+   (Ops/LatestSpecFacts.v) *)
+From RxVerif Require Import Ops.LatestSpecFacts.
+
+(* ---- fork_join: the RUNNER = fj_feed, completions included -----------------------------------------
+   [fj_inputs tins] = the input sequence made of the element deliveries (source, Some x) and completions
+   (source, None) tins; [fj_wfb (repeat false n) ...] = every one of them comes from one of the n sources
+   that has not completed before (the Rx grammar per source; it is NEEDED, see the counterexample below:
+   the runner's AutoDetachObserver drops what a source sends after its completion, the bare handler
+   iteration fj_feed does not).  Then [run] emits exactly fj_feed's tuple(s), followed by the completion
+   iff fj_feed reports the termination -- so C13_fork_join_closed_form is a statement about [run]. *)
+Theorem C13_fork_join_run_is_feed : forall A n (tins : list (Z * (nat * option A))),
+  fj_wfb (repeat false n) (map snd tins) = true ->
+  emitted (fst (run (x_fork_join n) (fj_inputs tins)))
+  = map Next (fst (fj_feed n (repeat None n, repeat false n) (map snd tins) []))
+    ++ (if snd (fj_feed n (repeat None n, repeat false n) (map snd tins) []) then [Done] else []).
+Proof. exact @fj_run_is_feed. Qed.
+Print Assumptions C13_fork_join_run_is_feed.
+
+Theorem C13_fork_join_run_closed_form : forall A n (tins : list (Z * (nat * option A))),
+  fj_wfb (repeat false n) (map snd tins) = true ->
+  emitted (fst (run (x_fork_join n) (fj_inputs tins)))
+  = map Next (fst (fj_spec n [] (repeat false n) (map snd tins)))
+    ++ (if snd (fj_spec n [] (repeat false n) (map snd tins)) then [Done] else []).
+Proof. exact @fj_run_closed_form. Qed.
+Print Assumptions C13_fork_join_run_closed_form.
+
+(* the hypothesis is satisfiable by a run with a tuple and a completion ... *)
+Example C13_witness_fork_join_run_is_feed :
+  let tins := [(1, (0%nat, Some 1)); (2, (1%nat, Some 10)); (3, (0%nat, Some 2)); (4, (0%nat, None));
+               (5, (1%nat, Some 20)); (6, (1%nat, None))] in
+  fj_wfb (repeat false 2) (map snd tins) = true
+  /\ emitted (fst (run (x_fork_join 2) (fj_inputs tins))) = [Next [2; 20]; Done]
+  /\ fj_feed 2 (repeat None 2, repeat false 2) (map snd tins) [] = ([[2; 20]], true).
+Proof. vm_compute. repeat split; reflexivity. Qed.
+(* ... and cannot be dropped: source 0 sends 2 after its completion; [run] ignores it, fj_feed does not *)
+Example C13_fork_join_run_is_feed_needs_grammar :
+  let tins := [(1, (0%nat, Some 1)); (2, (0%nat, None)); (3, (0%nat, Some 2)); (4, (1%nat, Some 10));
+               (5, (1%nat, None))] in
+  fj_wfb (repeat false 2) (map snd tins) = false
+  /\ emitted (fst (run (x_fork_join 2) (fj_inputs tins))) = [Next [1; 10]; Done]
+  /\ fj_feed 2 (repeat None 2, repeat false 2) (map snd tins) [] = ([[2; 10]], true).
+Proof. vm_compute. repeat split; reflexivity. Qed.
+
+(* ---- fork_join: REFINEMENT, every number of sources, EVERY input sequence over the full alphabet ----
+   [fj_full_spec n seen done pos ins]: seen = the element deliveries accepted so far, done = completed
+   flags.  Nothing is emitted until every source has completed; then ONE tuple of the last elements and
+   the completion, at that moment.  A source completing WITHOUT having delivered anything completes the
+   output at once.  The first error of a subscribed source ends the output.  Notifications of a source
+   after its own completion, of sources the operator does not have, and ticks are ignored; dispose
+   truncates. *)
+Theorem C13_fork_join_refines_spec : forall A n (ins : list (Z * inp A)),
+  temitted (fst (run (x_fork_join n) ins)) = fj_full_spec n [] (repeat false n) 1 ins.
+Proof. exact @fork_join_refines_spec. Qed.
+Print Assumptions C13_fork_join_refines_spec.
+
+(* the tuple is complete: one component per source, component j = the LAST element source j delivered
+   before its own completion ([fj_accepted] = those deliveries, in order of arrival) *)
+Theorem C13_fork_join_run_tuple_is_last_values : forall A n (ins : list (Z * inp A)) p tup,
+  In (p, Next tup) (temitted (fst (run (x_fork_join n) ins))) ->
+  length tup = n /\
+  forall j d, (j < n)%nat -> latest j (fj_accepted n (repeat false n) ins) = Some (nth j tup d).
+Proof. exact @fork_join_run_tuple. Qed.
+Print Assumptions C13_fork_join_run_tuple_is_last_values.
+
+(* the whole output is: nothing / one termination / one tuple and the completion at the same input *)
+Theorem C13_fork_join_run_shape : forall A n (ins : list (Z * inp A)),
+  temitted (fst (run (x_fork_join n) ins)) = []
+  \/ (exists p e, is_terminal e = true /\ temitted (fst (run (x_fork_join n) ins)) = [(p, e)])
+  \/ (exists p tup, temitted (fst (run (x_fork_join n) ins)) = [(p, Next tup); (p, Done)]).
+Proof. exact @fork_join_run_shape. Qed.
+Print Assumptions C13_fork_join_run_shape.
+
+Example C13_witness_fork_join_full :
+  (* tuple + completion; what source 0 sends after its completion (3) is ignored *)
+  temitted (fst (run (x_fork_join 2)
+     [(0, ISrc 0%nat (Next 1)); (0, ISrc 1%nat (Next 10)); (0, ISrc 0%nat (Next 2)); (0, ISrc 0%nat Done);
+      (0, ISrc 0%nat (Next 3)); (0, ISrc 1%nat (Next 20)); (0, ISrc 1%nat Done); (0, ISrc 1%nat (Next 30))]))
+  = [(7%nat, Next [2; 20]); (7%nat, Done)]
+  (* a source completing empty completes the output at once *)
+  /\ temitted (fst (run (x_fork_join 2)
+     [(0, ISrc 0%nat (Next 1)); (0, ISrc 1%nat Done); (0, ISrc 0%nat (Next 2)); (0, ISrc 0%nat Done)]))
+  = [(2%nat, Done)]
+  (* the first error ends the output *)
+  /\ temitted (fst (run (x_fork_join 2)
+     [(0, ISrc 0%nat (Next 1)); (0, ISrc 0%nat Done); (0, ISrc 1%nat (Err 7)); (0, ISrc 1%nat Done)]))
+  = [(3%nat, Err 7)]
+  (* dispose truncates *)
+  /\ temitted (fst (run (x_fork_join 2)
+     [(0, ISrc 0%nat (Next 1)); (0, ISrc 0%nat Done); (0, IDispose); (0, ISrc 1%nat (Next 5)); (0, ISrc 1%nat Done)]))
+  = [].
+Proof. vm_compute. repeat split; reflexivity. Qed.
+
+(* ---- combine_latest: REFINEMENT, every number of sources, EVERY input sequence ---------------------
+   [cl_full_spec]: an element of a subscribed source emits the tuple of latest elements iff every source
+   has delivered by now (the tuples of cl_spec).  The output completes when the LAST source completes; a
+   source completing without ever having delivered does NOT complete the output by itself -- the output
+   then completes at the next element that finds every OTHER source completed ([others_done]; that
+   element is swallowed), or when the last source completes, whichever comes first.  The first error of a
+   subscribed source ends the output; notifications of completed / foreign sources and ticks are ignored;
+   dispose truncates. *)
+Theorem C13_combine_latest_refines_spec : forall A n (ins : list (Z * inp A)),
+  temitted (fst (run (x_combine_latest n) ins)) = cl_full_spec n [] (repeat false n) 1 ins.
+Proof. exact @combine_latest_refines_spec. Qed.
+Print Assumptions C13_combine_latest_refines_spec.
+
+Example C13_witness_combine_latest_full :
+  (* tuples; completion exactly when the last source completes; a completed source is ignored (5) *)
+  temitted (fst (run (x_combine_latest 2)
+     [(0, ISrc 0%nat (Next 1)); (0, ISrc 1%nat (Next 10)); (0, ISrc 0%nat Done); (0, ISrc 0%nat (Next 5));
+      (0, ISrc 1%nat (Next 20)); (0, ISrc 1%nat Done); (0, ISrc 1%nat (Next 30))]))
+  = [(2%nat, Next [1; 10]); (5%nat, Next [1; 20]); (6%nat, Done)]
+  (* source 0 completes empty: no completion then; the next element of the only other source is
+     swallowed and completes the output *)
+  /\ temitted (fst (run (x_combine_latest 2)
+     [(0, ISrc 0%nat Done); (0, ISrc 0%nat Done); (0, ISrc 1%nat (Next 10)); (0, ISrc 1%nat (Next 20))]))
+  = [(3%nat, Done)]
+  /\ temitted (fst (run (x_combine_latest 3)
+     [(0, ISrc 0%nat Done); (0, ISrc 1%nat (Next 10)); (0, ISrc 1%nat Done); (0, ISrc 2%nat (Next 20));
+      (0, ISrc 2%nat (Next 30))]))
+  = [(4%nat, Done)]
+  (* the first error ends the output *)
+  /\ temitted (fst (run (x_combine_latest 2)
+     [(0, ISrc 0%nat (Next 1)); (0, ISrc 0%nat Done); (0, ISrc 1%nat (Next 10)); (0, ISrc 1%nat (Err 7));
+      (0, ISrc 1%nat Done)]))
+  = [(3%nat, Next [1; 10]); (4%nat, Err 7)]
+  (* dispose truncates *)
+  /\ temitted (fst (run (x_combine_latest 2)
+     [(0, ISrc 0%nat (Next 1)); (0, ISrc 1%nat (Next 10)); (0, IDispose); (0, ISrc 1%nat (Next 20))]))
+  = [(2%nat, Next [1; 10])].
+Proof. vm_compute. repeat split; reflexivity. Qed.
+
+(* ---- with_latest_from: REFINEMENT, every number of children, EVERY input sequence -------------------
+   parent = source 0, children = sources 1..n ([done] has a flag per source 0..n).  [wlf_full_spec]: only
+   the parent's elements produce tuples, and only once every child has delivered (the tuples of wlf_spec);
+   the output completes exactly when the PARENT completes -- a child's completion only ends that child's
+   deliveries (its latest element stays); the first error of ANY subscribed source, parent or child, ends
+   the output; dispose truncates. *)
+Theorem C13_with_latest_from_refines_spec : forall A n (ins : list (Z * inp A)),
+  temitted (fst (run (x_with_latest_from n) ins)) = wlf_full_spec n [] (repeat false (S n)) 1 ins.
+Proof. exact @with_latest_from_refines_spec. Qed.
+Print Assumptions C13_with_latest_from_refines_spec.
+
+Example C13_witness_with_latest_from_full :
+  (* child 1 completes (4): its later element 20 is ignored, 10 stays; the parent's completion completes *)
+  temitted (fst (run (x_with_latest_from 1)
+     [(0, ISrc 0%nat (Next 1)); (0, ISrc 1%nat (Next 10)); (0, ISrc 0%nat (Next 2)); (0, ISrc 1%nat Done);
+      (0, ISrc 1%nat (Next 20)); (0, ISrc 0%nat (Next 3)); (0, ISrc 0%nat Done); (0, ISrc 0%nat (Next 4))]))
+  = [(3%nat, Next [2; 10]); (6%nat, Next [3; 10]); (7%nat, Done)]
+  (* a child's error ends the output *)
+  /\ temitted (fst (run (x_with_latest_from 1)
+     [(0, ISrc 1%nat (Next 10)); (0, ISrc 0%nat (Next 2)); (0, ISrc 1%nat (Err 7)); (0, ISrc 0%nat (Next 3))]))
+  = [(2%nat, Next [2; 10]); (3%nat, Err 7)]
+  (* a child completing empty: no tuple ever, no completion before the parent's *)
+  /\ temitted (fst (run (x_with_latest_from 2)
+     [(0, ISrc 1%nat (Next 10)); (0, ISrc 0%nat (Next 2)); (0, ISrc 2%nat Done); (0, ISrc 0%nat (Next 3));
+      (0, ISrc 0%nat Done)]))
+  = [(5%nat, Done)].
+Proof. vm_compute. repeat split; reflexivity. Qed.
